@@ -681,7 +681,7 @@ PROPS = {
                                                   "validatePassageName_ok", "scanBrackets_ok", "multiline_ok", "pyNew_ok",
                                                   "pyOld_consumed", "findClose_bound", "parseContentLine_terminates", "contentLine_fuel",
                                                   "splitExprs_length", "parseTags_length", "validateChoice_ok", "condScan_ok",
-                                                  "bracketStage_ok", "parseText_no_internal", "blocks_good", "coreLoop_good"]] + [T + "loopPaths_advance"],
+                                                  "bracketStage_ok", "parseText_no_internal", "blocks_good", "coreLoop_good", "parseText_no_fuel", "parseText_total", "blocks_ok", "coreLoop_ok"]] + [T + "loopPaths_advance"],
         run=run_c11,
         rule="(a) line sequences (1-6, thorough 1-8 lines plus continuations) over a vocabulary of ~330 valid and broken forms "
              "of every kind of line (headers, text with braces / inline conditionals, ~ statements with open brackets, "
@@ -697,7 +697,12 @@ PROPS = {
              "surface style, all repository .bard files, mutations of both and vocabulary sequences: story or diagnostic class and "
              "line must agree exactly (CPython's ast.parse answers recorded from the real run and handed to the model as a table); "
              "distinct by hash of the text",
-        level_text="proof: parseText_no_internal — for EVERY source text and every behaviour of CPython's own parser, the model of "
+        level_text="proof: parseText_total = parseText_no_internal + parseText_no_fuel — for EVERY source text and every behaviour of "
+                   "CPython's own parser the model of parse() answers a story or a deliberate diagnostic (SyntaxError / ValueError): "
+                   "no internal error, and no loop that fails to advance (every while of the parser has one unit of fuel per "
+                   "iteration; with three units per line the fuel is never exhausted: a Python block uses >= 2 lines, a multi-line "
+                   "statement >= 1, a nested @if / @for block >= 1 and is extracted strictly behind its parent's opening line — "
+                   "blocks_ok by induction, coreLoop_ok). parseText_no_internal — for EVERY source text and every behaviour of CPython's own parser, the model of "
                    "parse() (strip_directive_comments, the line classifier of core.py, extract_python/conditional/loop/join blocks, "
                    "parse_choice_line, @render/@input lines, parse_content_line, the regular expressions run by a backtracking matcher "
                    "with Python's search order, whitespace cleanup, duplicate check, call validation, initial passage) never ends in "
@@ -711,9 +716,8 @@ PROPS = {
                    "recursive content tokenizer (tags, {…} splitting, nested inline conditionals) terminates on every line, its "
                    "recursion depth bounded by the line's length; loopPaths_advance — kernel-checked over the table of "
                    "all 70 ways to reach the next iteration of the 11 while loops of the compiler, re-extracted by a "
-                   "must-analysis on every run: each advances the index. Partial: termination of the model's line loops is by an explicit "
-                   "fuel of (lines+2)^2 whose exhaustion is a visible outcome (Fail.fuel) never observed in the correspondence runs but "
-                   "not yet proved unreachable (the extracted loop table and the per-call timer on the real compiler stand in for it); "
+                   "must-analysis on every run: each advances the index. Partial: the regular expressions are run by the model's own "
+                   "backtracking matcher (its fuel exhaustion reads as no-match; CPython's re is modelled, tied by the text correspondence); "
                    "deep nesting (RecursionError turned into SyntaxError by parse()) and non-ASCII letters are outside the model; "
                    "CPython's wall-clock behaviour is observed by a timer, not modelled",
     ),
